@@ -73,7 +73,9 @@ NEEDS_CHANGE = "(layer != 'X' or MV is not None or CI)"
 
 contract(
     V + '_validate_h5ad',
-    properties=['C16'], mode='slice', unexpected_exceptions='allowed',
+    # C19 (inputs untouched): the clauses "an output path that names the input file is refused" and
+    # "the written path differs from the input path" are the validation stage's share of it
+    properties=['C16', 'C19'], mode='slice', unexpected_exceptions='allowed',
     tracked=['h5ad_path', 'original_h5ad_path', 'new_h5ad_path', 'valid_h5ad_path', 'output_dir',
              'obs_original', 'var_original', 'cell_id_census', 'cell_id', 'msg', 'write_to_new_path',
              'mapped_var', 'cast_to_int', 'is_int', 'round_to_int', 'layer', 'output_path', 'x_minmax'],
